@@ -105,11 +105,14 @@ func (m *Machine) inputLeaves(name string, t types.Type, v Value) {
 
 // Verify runs the function under its contract and returns the obligations.
 func (m *Machine) Verify() {
-	for iter := 0; iter < 8; iter++ {
+	for iter := 0; iter < 12; iter++ {
 		m.restart = false
 		m.obls = nil
 		m.oblSeen = map[string]bool{}
 		m.coverPCs = nil
+		m.anteCover = map[string][][]*Term{}
+		m.anteOrder = nil
+		m.anteTags = map[string][]string{}
 		m.retPaths = 0
 		m.paths = 0
 		m.verifyOnce()
@@ -117,7 +120,7 @@ func (m *Machine) Verify() {
 			return
 		}
 	}
-	m.problem("loop havoc sets did not stabilise")
+	m.problem("loop havoc sets did not stabilise: %v", m.loopHavoc)
 }
 
 func (m *Machine) verifyOnce() {
@@ -184,9 +187,22 @@ func (m *Machine) verifyOnce() {
 			return
 		}
 		m.run(s)
-		if m.restart {
-			return
+	}
+	if m.restart {
+		return
+	}
+	for _, name := range m.anteOrder {
+		alts := m.anteCover[name]
+		o := &Obligation{Func: relName(fn), Name: relName(fn) + "#" + name, Kind: "cover.any", Cover: true,
+			PC: []*Term{m.ctx.F}, Goal: m.ctx.T, ctx: m.ctx, Tags: m.anteTags[name], Desc: "the antecedent of this clause is satisfiable on some path (vacuity check)", Inputs: m.inputs}
+		if len(o.Tags) == 0 {
+			o.Tags = m.allTags()
 		}
+		if len(alts) == 0 {
+			alts = [][]*Term{{m.ctx.F}}
+		}
+		o.Alts = alts
+		m.obls = append(m.obls, o)
 	}
 	if m.fc != nil && len(m.fc.Ensures) > 0 {
 		// at least one return path must be feasible
@@ -264,6 +280,24 @@ func (m *Machine) topReturn(st *State, fr *Frame, rets []Value) {
 	}
 	bind := m.currentBindings(st, fr)
 	m.resultBindings(fr.fn, fr.fn.Signature, rets, bind)
+	if m.fc.FreshResult {
+		// callers assume reference results are nil or allocated by this call (slices: offset 0)
+		base := m.ctx.IntBig(new(big.Int).Add(freshBase, big.NewInt(int64(m.entryFresh(st)))))
+		for i, r := range rets {
+			var g *Term
+			switch x := r.(type) {
+			case *Ptr:
+				if x.Idx == nil && x.Path == "" {
+					g = m.ctx.Or(m.ctx.Eq(x.Ref, m.ctx.Int(0)), m.ctx.ILt(base, x.Ref))
+				}
+			case *Slice:
+				g = m.ctx.And(m.ctx.ILt(base, x.Arr), m.ctx.Eq(x.Off, m.ts.IdxConst(0)))
+			}
+			if g != nil {
+				m.recordOrOblige(st, fr, "post", fmt.Sprintf("freshresult.%d", i), g, m.allTags(), "freshresult: result is nil or newly allocated (callers rely on it)")
+			}
+		}
+	}
 	for i, e := range m.fc.Ensures {
 		v, ok := m.evalClause(st, e, bind)
 		if !ok {
@@ -277,6 +311,7 @@ func (m *Machine) topReturn(st *State, fr *Frame, rets []Value) {
 		if len(tags) == 0 {
 			tags = m.fc.Props
 		}
+		m.noteAntecedent(st, e, "cover.post."+label, bind)
 		m.recordOrOblige(st, fr, "post", label, v.(*Term), tags, e.Raw+"  ["+e.Line+"]")
 	}
 }
@@ -347,6 +382,27 @@ func (m *Machine) applyContract(st *State, fr *Frame, instr ssa.Instruction, fc 
 			}
 			short := name
 			m.oblige(st, fr, "pre", fmt.Sprintf("%s.%d.%s", short, ord, label), v.(*Term), tags, "precondition of "+name+": "+r.Raw+"  ["+r.Line+"]")
+		}
+	}
+	// objects handed to the callee may come back in its results / assigned locations
+	st.aliasOK = map[int]bool{}
+	defer func() { st.aliasOK = nil }()
+	for i, a := range args {
+		var refs []*Term
+		if i < sig.Params().Len() {
+			m.collectRefs(sig.Params().At(i).Type(), a, &refs)
+		} else if sig.Recv() != nil {
+			m.collectRefs(sig.Recv().Type(), a, &refs)
+		}
+		for _, r := range refs {
+			m.markAliasOK(st, r, 0)
+		}
+	}
+	if fn != nil && sig.Recv() != nil && len(args) > 0 {
+		var refs []*Term
+		m.collectRefs(sig.Recv().Type(), args[0], &refs)
+		for _, r := range refs {
+			m.markAliasOK(st, r, 0)
 		}
 	}
 	// effects
@@ -753,6 +809,7 @@ func (m *Machine) enterLoopHeader(st *State, fr *Frame, from, header *ssa.BasicB
 				if label == "" {
 					label = fmt.Sprint(i)
 				}
+				m.noteAntecedent(st, it, fmt.Sprintf("cover.iter.loop%d.%s", ord, label), bind)
 				m.recordOrOblige(st, fr, "iter", fmt.Sprintf("loop%d.%s", ord, label), v.(*Term), t, it.Raw+"  ["+it.Line+"]")
 			}
 			st.evBase = savedBase
@@ -766,10 +823,10 @@ func (m *Machine) enterLoopHeader(st *State, fr *Frame, from, header *ssa.BasicB
 		st.dead = true
 		return false
 	}
-	evalInv("inv.establish")
-	// loop lets: snapshot values at loop entry
+	// loop lets: snapshot values at loop entry (before the cut)
 	cut := &loopCut{lets: map[string]Value{}}
 	{
+		m.enterBlock(st, fr, from, header)
 		bind := m.currentBindings(st, fr)
 		for _, l := range spec.Lets {
 			m.localBindings(st, fr, header, paramNames(l), bind)
@@ -780,6 +837,8 @@ func (m *Machine) enterLoopHeader(st *State, fr *Frame, from, header *ssa.BasicB
 			}
 		}
 	}
+	fr.cuts[header.Index] = cut
+	evalInv("inv.establish")
 	// havoc loop-carried variables and the memory the body may write
 	for _, ins := range header.Instrs {
 		phi, ok := ins.(*ssa.Phi)
@@ -825,6 +884,21 @@ func (m *Machine) enterLoopHeader(st *State, fr *Frame, from, header *ssa.BasicB
 	}
 	if ri := m.rangeIndexInv(st, fr, header); ri != nil {
 		st.assume(ri)
+	}
+	if len(spec.IterLets) > 0 {
+		nl := map[string]Value{}
+		for k, v := range cut.lets {
+			nl[k] = v
+		}
+		for _, l := range spec.IterLets {
+			m.localBindings(st, fr, header, paramNames(l), bind)
+			v, ok := m.evalClause(st, l, bind)
+			if ok {
+				nl[l.Name] = v
+				bind[l.Name] = v
+			}
+		}
+		cut.lets = nl
 	}
 	for _, inv := range spec.Invariants {
 		m.localBindings(st, fr, header, paramNames(inv), bind)
@@ -1015,4 +1089,119 @@ func (m *Machine) rangeIndexInv(st *State, fr *Frame, header *ssa.BasicBlock) *T
 	bv := bvv.(*Term)
 	minus1 := m.ts.IdxConst(-1)
 	return m.ctx.And(m.idxLe(minus1, pv), m.ctx.Or(m.idxLt(pv, bv), m.ctx.Eq(pv, minus1)))
+}
+
+// noteAntecedent records (path condition and antecedent) for the vacuity check of clause c.
+func (m *Machine) noteAntecedent(st *State, c *Clause, name string, bind map[string]Value) {
+	if c.AnteFn == "" || st.pure {
+		return
+	}
+	gf := m.P.Funcs[c.AnteFn]
+	if gf == nil {
+		return
+	}
+	var args []Value
+	for _, p := range gf.Params {
+		v, ok := bind[p.Name()]
+		if !ok {
+			return
+		}
+		args = append(args, v)
+	}
+	a := m.pureCall(st, gf, args, nil)[0].(*Term)
+	if a.IsFalse() {
+		if _, ok := m.anteCover[name]; !ok {
+			m.anteCover[name] = nil
+			m.anteOrder = append(m.anteOrder, name)
+		}
+		return
+	}
+	if _, ok := m.anteCover[name]; !ok {
+		m.anteOrder = append(m.anteOrder, name)
+		m.anteCover[name] = nil
+	}
+	if m.obviouslyContradicts(st.pc, a) {
+		return
+	}
+	if len(m.anteCover[name]) < 200 {
+		m.anteCover[name] = append(m.anteCover[name], append(append([]*Term{}, st.pc...), a))
+	}
+	m.anteTags[name] = c.Tags
+}
+
+// markAliasOK marks fresh object r (and what it references) as possibly aliased by callee results.
+func (m *Machine) markAliasOK(st *State, r *Term, depth int) {
+	if r.op == "ite" {
+		m.markAliasOK(st, r.args[1], depth)
+		m.markAliasOK(st, r.args[2], depth)
+		return
+	}
+	f := m.freshObjOf(st, r)
+	if f == nil || st.aliasOK[r.id] || depth > 4 {
+		return
+	}
+	st.aliasOK[r.id] = true
+	if f.typ == nil || f.isArr {
+		return
+	}
+	defer func() { recover() }()
+	for _, l := range m.ts.Leaves(f.typ) {
+		if l.kind != 'r' {
+			continue
+		}
+		name := leafName(f.mem, l.path)
+		if arr, ok := st.heap[name]; ok {
+			v := m.ctx.Select(arr, f.ref)
+			if v.IsNum() {
+				m.markAliasOK(st, v, depth+1)
+			}
+		}
+	}
+}
+
+// obviouslyContradicts: some conjunct x == c of a clashes with a fact x == c' (c != c') of pc.
+func (m *Machine) obviouslyContradicts(pc []*Term, a *Term) bool {
+	known := map[int]*Term{}
+	var scan func(t *Term)
+	scan = func(t *Term) {
+		switch t.op {
+		case "and":
+			for _, x := range t.args {
+				scan(x)
+			}
+		case "=":
+			if t.args[0].IsNum() && !t.args[1].IsNum() {
+				known[t.args[1].id] = t.args[0]
+			} else if t.args[1].IsNum() && !t.args[0].IsNum() {
+				known[t.args[0].id] = t.args[1]
+			}
+		}
+	}
+	for _, p := range pc {
+		scan(p)
+	}
+	bad := false
+	var chk func(t *Term)
+	chk = func(t *Term) {
+		switch t.op {
+		case "and":
+			for _, x := range t.args {
+				chk(x)
+			}
+		case "=":
+			var v, c *Term
+			if t.args[0].IsNum() {
+				c, v = t.args[0], t.args[1]
+			} else if t.args[1].IsNum() {
+				c, v = t.args[1], t.args[0]
+			}
+			if v != nil {
+				if k, ok := known[v.id]; ok && k != c {
+					bad = true
+				}
+			}
+		}
+	}
+	chk(a)
+	return bad
 }
